@@ -171,7 +171,10 @@ def extractArchivedFile (s : St) (h : Hdr) : St :=
   | some (true, s) => { s with out := "skipped" :: s.out }
   | some (false, s) =>
     if !s.opts.usePath ∧ isDir then { s with out := "dir-ignored" :: s.out } else
-    let mp := makeParentDirectories s.fs filename
+    -- parents are created for first-time entries only: a re-presented directory or a deferred link was extracted
+    -- before (its parents exist), and by now a parent may be a link leading elsewhere
+    let mp := if s.rd.currType == .fakeDir || s.rd.currType == .deferred then (true, s.fs)
+              else makeParentDirectories s.fs filename
     if !mp.1 then { s with fs := mp.2, result := false, out := "parent-failed" :: s.out } else
     let r := readerExtract s.rd mp.2 filename
     { s with rd := r.2.1, fs := r.2.2, result := s.result && r.1, out := (if r.1 then "ok" else "failed") :: s.out }
